@@ -18,7 +18,8 @@ META = {
         'replace(tzinfo=...)/localize on an aware value; both writers emit isoformat() of the value itself plus the '
         'zone name and never convert it.  (D3) failure discipline of timezone_name: only ValueError can leave (tabled '
         'may-raise facts), every zone returned by the fallback scan is dominated by the test "offset of the candidate at '
-        'that instant == offset of the value", the UTC shortcut by offset == 0, the last statement raises ValueError.'),
+        'that instant == offset of the value", the UTC shortcut by offset == 0 and only after the mapped-zone lookup, the last statement raises ValueError; '
+        'timezone_name is not memoised (aware datetimes compare by instant); every zone name the writer can emit is a token the ZINC reader accepts (date-time row of the writer/reader pairing).'),
     'rule_text': 'obligations = map-construction facts, reader/writer API sites, timezone_name paths',
     'trusted_base': ['pytz.all_timezones lists each zone once; astimezone() preserves the instant; spec/may_raise.json'],
 }
